@@ -230,19 +230,47 @@ static void check_order_seq(uint64_t idx, vp::Local& L) {
     std::vector<int> s = nth_seq(idx);
     std::vector<const osmium::OSMObject*> objs;
     bool ref = true;
+    size_t first_bad = s.size();  // index of the first object that is not above its predecessor
     for (size_t i = 0; i < s.size(); ++i) {
         objs.push_back(G3->obj[s[i]]);
         if (i > 0) {
             const Attr& p = G3->attr[s[i - 1]];
             const Attr& c = G3->attr[s[i]];
-            if (!(std::make_tuple(p.type_rank, id_rank(p.id)) < std::make_tuple(c.type_rank, id_rank(c.id)))) ref = false;
+            if (!(std::make_tuple(p.type_rank, id_rank(p.id)) < std::make_tuple(c.type_rank, id_rank(c.id)))) {
+                ref = false;
+                if (first_bad == s.size()) first_bad = i;
+            }
         }
     }
     bool lib = run_check_order(objs);
+    std::string d;
+    for (int k : s) d += show_attr(G3->attr[k]) + " ";
     if (lib != ref) {
-        std::string d;
-        for (int k : s) d += show_attr(G3->attr[k]) + " ";
         vp::fail("check-order-model", std::string{"CheckOrder "} + (lib ? "accepts" : "rejects") + " the stream " + d + "but it is " + (ref ? "" : "not ") + "strictly ascending");
+    }
+    // the same stream object by object: the error comes at the first object that is out of place and names its id; what the checker
+    // reports as the largest id per type is the id of the last object of that type it accepted
+    {
+        osmium::handler::CheckOrder co;
+        int64_t last[3] = {0, 0, 0};
+        for (size_t i = 0; i < objs.size(); ++i) {
+            bool threw = false;
+            int64_t named = 0;
+            try {
+                osmium::apply_item(*objs[i], co);
+            } catch (const osmium::out_of_order_error& e) {
+                threw = true;
+                named = e.object_id;
+            }
+            VP_CHECK(threw == (i == first_bad), "check-order-position", "CheckOrder " << (threw ? "rejects" : "accepts") << " object #" << i << " of the stream " << d << "; the first object out of place is #" << first_bad);
+            if (threw) {
+                VP_CHECK(named == G3->attr[s[i]].id, "check-order-position", "the error for object #" << i << " of the stream " << d << " names id " << named);
+                break;
+            }
+            last[G3->attr[s[i]].type_rank] = G3->attr[s[i]].id;
+            VP_CHECK(co.max_node_id() == last[0] && co.max_way_id() == last[1] && co.max_relation_id() == last[2], "check-order-max-id",
+                     "after object #" << i << " of the stream " << d << ": max_node_id/max_way_id/max_relation_id = " << co.max_node_id() << "/" << co.max_way_id() << "/" << co.max_relation_id() << ", last accepted ids are " << last[0] << "/" << last[1] << "/" << last[2]);
+        }
     }
     L.count(ref ? "sorted_stream" : "unsorted_stream");
     ++L.nontrivial;
